@@ -355,6 +355,13 @@ def run_adaptive(case, r):
             r.check(k.time in marks, 'record-keyed-by-a-step-time', f'{tag}: record {k.type!r} (process {k.process}, iter {k.iter}) is keyed by time {k.time!r}, which is neither the start nor the end of any step attempt of the run')
             if k.type.endswith('post_run') and k.process == max(a['slot'] for a in acc if a['end'] == t_final):
                 r.check(k.time == t_final, 'run-level-record-keyed-by-final-time', f'{tag}: {k.type!r} is keyed by {k.time!r}, the run ended at {t_final!r}')
+        for typ in ('e_global_post_run', 'e_global_rel_post_run'):
+            recs = [(k.process, k.time, v) for k, v in stats.items() if k.type == typ]
+            r.check(len(recs) == 1, 'one-run-level-record', f'{tag}: {len(recs)} {typ!r} records for one run: {recs}', mech='post-run-error-logged-by-a-step-idle-in-the-final-block' if len(recs) > 1 and len({t for _, t, _ in recs}) == 1 else None)
+            if typ == 'e_global_post_run' and len(recs) >= 1:
+                want = float(abs(uend - P.u_exact(t_final)))
+                own = [v for p_, t_, v in recs if p_ == max(a['slot'] for a in acc if a['end'] == t_final)]
+                r.check(bool(own) and abs(own[0] - want) <= 1e-13 * max(1.0, want), 'run-level-record-value', f'{tag}: e_global_post_run = {own} but |uend - u_exact({t_final!r})| = {want!r}')
         for need in ('e_global_post_run', 'e_global_post_step', 'e_local_post_step', 'e_global_post_iteration', 'u', 'dt', 'niter', 'work_rhs', 'k'):
             r.check(need in seen_types, 'requested-hook-records-present', f'{tag}: no {need!r} record although the hook was requested (types: {sorted(seen_types)})')
         for typ, which in [('e_global_post_step', 'end'), ('e_local_post_step', 'end')]:
